@@ -16,7 +16,11 @@ import Verif.Model.Store
     (used by `renewSSH`, `rekeySSH`): step 0 = arrival, step 1 reads the table (`IsRevoked`), an
     error ⇒ refused, present ⇒ refused; step 2 = every other gate (input bit);
   * /repo/api/revoke.go `RevokeRequest.Validate`'s serial canonicalisation (`canonSerial`:
-    `big.Int.SetString(s, 0)` then `.String()`); /repo/api/sshRevoke.go has no such step.
+    `big.Int.SetString(s, 0)` then `.String()`); /repo/api/sshRevoke.go `SSHRevokeRequest.Validate`
+    (`canonSSHSerial`: `strconv.ParseUint(s, 10, 64)` — decimal digits only, no sign, no `_`, < 2^64 —
+    then `strconv.FormatUint(…, 10)`; since c1e180f. Before that commit the SSH route stored the
+    string as sent: `canonSSHSerialOld`, kept for the historic refutation `ssh_revoke_unnormalised`).
+    `wireKey` is the API boundary: the key a revocation request is stored under, `none` = 400.
   * a fault oracle: each request carries what happens at its storage step (`Fault`).
 
   The key of a request is the string the code uses: `revokeOpts.Serial` for a revocation,
@@ -56,6 +60,7 @@ inductive Out where
   | refusedOther    -- renewal refused by another gate
   | allowed         -- renewal passes the gates
   | dropped
+  | badRequest      -- refused by the request's `Validate` (400) before anything is looked at
   deriving Repr, DecidableEq
 
 structure Inp where
@@ -191,5 +196,41 @@ def printSerial (v : Bool × Nat) : Str :=
 /-- `RevokeRequest.Validate` on the serial: `none` = 400 (missing / not a number) -/
 def canonSerial (t : Str) : Option Str :=
   if t = [] then none else (parseSerial t).map printSerial
+
+/-! ## SSH serial canonicalisation (`SSHRevokeRequest.Validate`, since c1e180f) -/
+
+/-- `strconv.ParseUint(s, 10, 64)` digit loop: decimal digits only -/
+def uintDigits : Str → Nat → Option Nat
+  | [], v => some v
+  | c :: cs, v => if 48 ≤ c ∧ c ≤ 57 then uintDigits cs (v * 10 + (c - 48)) else none
+
+/-- `strconv.ParseUint(s, 10, 64)`: `none` = syntax or range error -/
+def parseUint10 (t : Str) : Option Nat :=
+  if t = [] then none else
+  match uintDigits t 0 with
+  | some v => if v < 2 ^ 64 then some v else none
+  | none => none
+
+/-- `SSHRevokeRequest.Validate` on the serial: `none` = 400 -/
+def canonSSHSerial (t : Str) : Option Str := (parseUint10 t).map decDigits
+
+/-- the SSH route before c1e180f: any non-empty string, stored as sent -/
+def canonSSHSerialOld (t : Str) : Option Str := if t = [] then none else some t
+
+/-- the key a revocation request with serial `raw` is stored under on each route -/
+def wireKey (ssh : Bool) (raw : Str) : Option Str := if ssh then canonSSHSerial raw else canonSerial raw
+
+/-- the number a revocation request's serial denotes on each route -/
+def wireValue (ssh : Bool) (raw : Str) : Option Nat :=
+  if ssh then parseUint10 raw
+  else if raw = [] then none else
+    match parseSerial raw with
+    | some (false, n) => some n
+    | some (true, 0) => some 0
+    | _ => none
+
+/-- the key a renewal / rekey of the certificate with serial number `n` looks up:
+    `cert.SerialNumber.String()` resp. `strconv.FormatUint(cert.Serial, 10)` -/
+def certKey (n : Nat) : Str := decDigits n
 
 end Verif.Rev
